@@ -493,7 +493,11 @@ class Temporal(Scalar):
         elif isinstance(value, (str, bytes)):
             if self.strip:
                 value = value.strip()
-            match = self.regex.match(value)
+            try:
+                match = self.regex.match(value)
+            except TypeError:
+                # the text pattern can not read a bytes value
+                raise AdaptationError()
             if not match:
                 raise AdaptationError()
             try:
